@@ -368,6 +368,66 @@ def main():
     need(len(args) == 1 and is_name(args[0], "data"), fn, "struct.unpack(fmt, data)")
     out.append(dumplib.definition("router_diag_format", "string", dumplib.string(fmt)))
 
+    # ------------------------------------------------------------------ forwarding entry points, struct look-up
+    # The layout-parametric model (p2p_table_L ..., Model/Probe.v) and the controller-state model (ctl_*)
+    # rest on the statements of these small functions exactly as written: each is matched whole.
+    SHAPES = {
+        "MachineController._get_struct_field_and_address": [
+            "field = self.structs[six.b(struct_name)][six.b(field_name)]",
+            "address = self.structs[six.b(struct_name)].base + field.offset",
+            "pack_chars = b'<' + field.length * field.pack_chars",
+            "return (field, address, pack_chars)"],
+        "MachineController.read_struct_field": [
+            "field, address, pack_chars = self._get_struct_field_and_address(struct_name, field_name)",
+            "length = struct.calcsize(pack_chars)",
+            "data = self.read(address, length, x, y, p)",
+            "unpacked = struct.unpack(pack_chars, data)",
+            "if field.length == 1:\n    return unpacked[0]\nelse:\n    return unpacked"],
+        "MachineController._get_vcpu_field_and_address": [
+            "vcpu_struct = self.structs[b'vcpu']",
+            "field = vcpu_struct[six.b(field_name)]",
+            "address = self.read_struct_field('sv', 'vcpu_base', x, y) + vcpu_struct.size * p + field.offset",
+            "pack_chars = b'<' + field.pack_chars",
+            "return (field, address, pack_chars)"],
+        "MachineController.read_vcpu_struct_field": [
+            "field, address, pack_chars = self._get_vcpu_field_and_address(field_name, x, y, p)",
+            "length = struct.calcsize(pack_chars)",
+            "data = self.read(address, length, x, y)",
+            "unpacked = struct.unpack(pack_chars, data)",
+            "if field.length == 1:\n    return unpacked[0]\nelse:\n    if b's' in pack_chars:\n"
+            "        return unpacked[0].strip(b'\\x00').decode('utf-8')\n    return unpacked"],
+        "MachineController.get_machine": [
+            "warnings.warn('MachineController.get_machine() is deprecated, see get_system_info().', DeprecationWarning)",
+            "from rig.place_and_route.utils import build_machine",
+            "system_info = self.get_system_info(x, y)",
+            "return build_machine(system_info)"],
+        "MachineController.scp_data_length": [
+            "if self._scp_data_length is None:\n    data = self.get_software_version(255, 255, 0)\n"
+            "    self._scp_data_length = data.buffer_size",
+            "return self._scp_data_length"],
+        "MachineController.get_working_links": ["return self.get_chip_info(x, y).working_links"],
+        "MachineController.get_ip_address": [
+            "chip_info = self.get_chip_info(x=x, y=y)",
+            "return chip_info.ip_address if chip_info.ethernet_up else None"],
+        "MachineController.get_num_working_cores": ["return self.read_struct_field('sv', 'num_cpus', x, y)"],
+        "MachineController.get_iobuf": ["return self.get_iobuf_bytes(p, x, y).decode('utf-8')"],
+    }
+    CUR[0] = MC
+    for qual, want in sorted(SHAPES.items()):
+        f = py2v.find_function(tree, qual)
+        body = [st for st in f.body if not (isinstance(st, ast.Expr) and isinstance(st.value, ast.Constant)
+                                            and isinstance(st.value.value, str))]
+        got = [ast.unparse(st) for st in body]
+        need(got == want, f, "%s consists of the statements %r" % (qual, want))
+    # every struct look-up of the probing functions goes through the controller's own `structs`
+    mcls = [n for n in tree.body if isinstance(n, ast.ClassDef) and n.name == "MachineController"][0]
+    init = py2v.find_function(tree, "MachineController.__init__")
+    init_src = [ast.unparse(st) for st in init.body]
+    need("self.structs = structs" in init_src and "self._scp_data_length = None" in init_src, init,
+         "__init__ stores the caller's structs and starts without a known SCP buffer size")
+    out.append("(* %s : struct look-up and forwarding entry points matched statement by statement *)" % MC)
+    out.append(dumplib.definition("forwarding_shapes_matched", "Z", dumplib.z(len(SHAPES))))
+
     # ------------------------------------------------------------------ unpack_sver_response_version
     tree = load(root, COMMON)
     fn = py2v.find_function(tree, "unpack_sver_response_version")
